@@ -2079,8 +2079,10 @@ func temporaryVariable(p *Program, fn *ssa.Function, set ssa.Instruction, cc *ss
 		c, ok := v.(*ssa.Const)
 		return ok && c.Value != nil && c.Value.ExactString() == name.Value.ExactString()
 	}
-	// "the host had set it": ok-result of Get(name) evaluated before the store
+	// "the host had set it": ok-result of Get(name) evaluated before the store,
+	// and the value the host had stored
 	hostHad := map[ssa.Value]bool{}
+	hostValue := map[ssa.Value]bool{}
 	for _, c := range callsTo(fn, get) {
 		call, isCall := c.(*ssa.Call)
 		if !isCall || !sameName(call.Call.Args[1]) || !dominatesInstr(call, set) {
@@ -2090,7 +2092,21 @@ func temporaryVariable(p *Program, fn *ssa.Function, set ssa.Instruction, cc *ss
 			if ex, ok := ref.(*ssa.Extract); ok && ex.Index == 1 {
 				hostHad[ex] = true
 			}
+			if ex, ok := ref.(*ssa.Extract); ok && ex.Index == 0 {
+				hostValue[ex] = true
+			}
 		}
+	}
+	// a store of the value read before puts the host's variable back
+	restores := func(x *ssa.Call) bool {
+		if x.Call.StaticCallee() != cc.StaticCallee() || len(x.Call.Args) < 3 || !sameName(x.Call.Args[1]) {
+			return false
+		}
+		return hostValue[x.Call.Args[2]]
+	}
+	// the store under test is itself the restoration
+	if c, ok := set.(*ssa.Call); ok && restores(c) {
+		return true, "puts back the value the host had stored under the name (read before the temporary value was stored)"
 	}
 	// conditions known to hold at the store
 	known := map[ssa.Value]bool{}
@@ -2109,6 +2125,9 @@ func temporaryVariable(p *Program, fn *ssa.Function, set ssa.Instruction, cc *ss
 				if x.Call.StaticCallee() == unset && sameName(x.Call.Args[1]) {
 					return
 				}
+				if restores(x) {
+					return
+				}
 			case *ssa.Return:
 				leak = true
 				return
@@ -2124,14 +2143,10 @@ func temporaryVariable(p *Program, fn *ssa.Function, set ssa.Instruction, cc *ss
 					} else {
 						next = b.Succs[:1]
 					}
-				} else if hostHad[cond] {
-					// on the "host had it" edge nothing was injected
-					if neg {
-						next = b.Succs[:1]
-					} else {
-						next = b.Succs[1:]
-					}
 				}
+				// (that the host had a variable of the name is no excuse: its
+				// value has been overwritten, and must be put back)
+				_ = hostHad
 				for _, s := range next {
 					if !seen[s] {
 						seen[s] = true
@@ -2152,7 +2167,7 @@ func temporaryVariable(p *Program, fn *ssa.Function, set ssa.Instruction, cc *ss
 	if leak {
 		return false, ""
 	}
-	return true, "temporary: removed again (" + unset.Name() + ") on every path to a return, except where a lookup before the store showed the host had set it"
+	return true, "temporary: on every path to a return the variable is removed again (" + unset.Name() + ") or the value the host had stored under the name is put back"
 }
 
 func mustAnchorRun(p *Program) *ssa.Function {
